@@ -33,7 +33,7 @@ CHECKS = {
             "Trusted: SimStorage (contract-conforming faults only), rkyv-validated decoding of the Serialize reply. Keyspaces created sequentially (C18 owns concurrent creation).",
             "DESIGN.md section 10 C02"),
     "C07": ("E1", "fault_enumeration",
-            "Every crash point of a 72-point grid (after each of 24 request groups; inside each of 16 mutating storage calls with 0 / 1 / all writes durable) for each seeded history, plus seeded double crashes; crash = runtime dropped, restart = load_states_from_storage on the surviving storage; rebuilt set == store, acknowledged mutations visible, C02 oracle for the rest of the history. One case in 24 runs the real keyspace actors over real SQLite/LMDB files with the node stopped between requests and restarted on the same files (node ids up to 255 in persisted timestamps).",
+            "Every crash point of a 72-point grid (after each of 24 request groups; inside each of 16 mutating storage calls with 0 / 1 / all writes durable) for each seeded history, plus seeded double crashes; crash = runtime dropped, restart = load_states_from_storage on the surviving storage; rebuilt set == store, acknowledged mutations visible, C02 oracle for the rest of the history. One case in 23 runs the real keyspace actors over real SQLite/LMDB files with the node stopped between requests and restarted on the same files (node ids up to 255 in persisted timestamps).",
             "Trusted: SimStorage durability model (applied write = durable). Crash points inside a storage call are on the simulated store only; real-backend torn writes below SQLite/LMDB are out of scope; peer convergence after restart is C01.",
             "DESIGN.md section 10 C07"),
     "C11": ("E1", "exploration",
